@@ -488,7 +488,15 @@ fn one_session(r: &mut Rng, it: usize, only: &str) -> Option<Cex> {
             continue;
         }
         // ---- no failure in this call: compare with the model
-        if (rt.clone(), rc) != after && want(only, "C05") {
+        // which property a wrong line speaks about depends on the key: Enter (C01: the line is empty afterwards),
+        // Up/Down (C10), Tab (C11), anything else (C05 ideal editor, C17 every scalar survives)
+        let line_props: &[&str] = match &ev {
+            Some(Ev::Enter) => &["C01", "C14"],
+            Some(Ev::Up) | Some(Ev::Down) => &["C10", "C16"],
+            Some(Ev::Tab) => &["C11", "C16"],
+            _ => &["C05", "C17"],
+        };
+        if (rt.clone(), rc) != after && (only.is_empty() || line_props.contains(&only)) {
             return Some(Cex { input: trace, expected: format!("line {:?} cursor {}", after.0, after.1), actual: format!("line {:?} cursor {}", rt, rc) });
         }
         if (rt.clone(), rc) != after {
@@ -513,7 +521,7 @@ fn one_session(r: &mut Rng, it: usize, only: &str) -> Option<Cex> {
             if to_handler {
                 exp_calls.push((String::from_utf8(toks[0].clone()).unwrap(), classify(&toks[1..])));
             }
-            if *calls.borrow() != exp_calls && (want(only, "C01") || want(only, "C12")) {
+            if *calls.borrow() != exp_calls && (want(only, "C01") || want(only, "C12") || want(only, "C07") || want(only, "C08") || want(only, "C16")) {
                 return Some(Cex {
                     input: trace,
                     expected: format!("handler calls {:?}", exp_calls),
